@@ -82,6 +82,8 @@ def generate(tier, seed, work, stats):
             cases.append(dict(prods=prods, vpool="upper", tpool="ab", family="random"))
     for c in cases:
         c["L"] = 4
+    # P3: the calls the repository's own tests make, re-judged by the trace specification
+    cases += core.record_tests(["/repo/pyformlang"], work, {"get_first_set", "get_follow_set", "is_llone_parsable"}, stats)
     return cases
 
 
